@@ -112,16 +112,97 @@ func (g *gen) litFor(want Ty) *Expr {
 	return nil // named: no literal
 }
 
-func (c *ctx) findLocals(want Ty) []local {
-	var out []local
+// visVar is a variable in scope at the point being generated.
+type visVar struct {
+	name   string
+	ty     Ty
+	obj    int
+	result bool // a named result ...
+	own    bool // ... of the function whose body is being generated (not of an enclosing one)
+}
+
+// visible: the variables in scope, the innermost declaration of a name only.  A name declared again in an inner
+// scope hides the outer one: `r1 := ...` in a block hides the named result r1 (the new variable is a different
+// object: an assignment to it is no assignment to the result), a result q0 of a nested literal hides the q0 of the
+// enclosing literal.  The blank identifier names nothing.
+func (c *ctx) visible() []visVar {
+	var out []visVar
+	seen := map[string]bool{}
 	for cc := c; cc != nil; cc = cc.parent {
-		for _, l := range append(append([]local{}, cc.locals...), cc.scoped...) {
-			if assignable(l.ty, want) {
-				out = append(out, l)
+		for i := len(cc.scoped) - 1; i >= 0; i-- {
+			if l := cc.scoped[i]; !seen[l.name] {
+				seen[l.name] = true
+				out = append(out, visVar{name: l.name, ty: l.ty, obj: l.obj})
+			}
+		}
+		for _, l := range cc.locals {
+			if !seen[l.name] {
+				seen[l.name] = true
+				out = append(out, visVar{name: l.name, ty: l.ty, obj: l.obj})
+			}
+		}
+		for _, rs := range cc.f.Res {
+			if rs.Name != "" && rs.Name != "_" && !seen[rs.Name] {
+				seen[rs.Name] = true
+				out = append(out, visVar{name: rs.Name, ty: rs.Ty, obj: rs.Obj, result: true, own: cc == c})
 			}
 		}
 	}
 	return out
+}
+
+// resultHidden: a named result of the function being generated is hidden by a variable of an inner scope (a bare
+// return is then a compile error: "result parameter not in scope at return")
+func (c *ctx) resultHidden() bool {
+	for _, rs := range c.f.Res {
+		for _, l := range c.scoped {
+			if rs.Name != "" && rs.Name != "_" && l.name == rs.Name {
+				return true
+			}
+		}
+	}
+	return false
+}
+
+// blankResults replaces some names of a named result list by the blank identifier - first / middle / last /
+// several / all positions.  A blank result is a declared variable like any other (it keeps its object: go/types
+// records one for `_` in a signature), it can just never be mentioned: a bare return reports its declared type.
+func blankResults(r *core.RNG, rs []Res) {
+	n := len(rs)
+	if n == 0 || rs[0].Name == "" {
+		return
+	}
+	blank := func(i int) { rs[i].Name = "_" }
+	switch k := r.Intn(10); {
+	case k < 3: // the first
+		blank(0)
+	case k < 5: // the last
+		blank(n - 1)
+	case k < 6: // one in the middle (the first of two)
+		blank((n - 1) / 2)
+	case k < 7: // all
+		for i := range rs {
+			blank(i)
+		}
+	case k < 8: // all but the last
+		for i := 0; i+1 < n; i++ {
+			blank(i)
+		}
+		if n == 1 {
+			blank(0)
+		}
+	default: // each with probability 1/2, at least one
+		any := false
+		for i := range rs {
+			if r.Chance(50) {
+				blank(i)
+				any = true
+			}
+		}
+		if !any {
+			blank(r.Intn(n))
+		}
+	}
 }
 
 func (g *gen) newLocal(c *ctx, ty Ty) local {
@@ -152,16 +233,10 @@ func (g *gen) valExpr(c *ctx, want Ty) *Expr {
 	if e := g.litFor(want); e != nil {
 		add(3, func() *Expr { return g.litFor(want) })
 	}
-	for _, l := range c.findLocals(want) {
-		l := l
-		add(3, func() *Expr { return ident(l.name, l.ty, true, l.obj) })
-	}
-	for cc := c; cc != nil; cc = cc.parent { // named results of this function and of the enclosing ones
-		for _, rs := range cc.f.Res {
-			rs := rs
-			if rs.Name != "" && rs.Name != "_" && assignable(rs.Ty, want) {
-				add(3, func() *Expr { return ident(rs.Name, rs.Ty, true, rs.Obj) })
-			}
+	for _, v := range c.visible() { // locals, named results of this function and of the enclosing ones
+		v := v
+		if assignable(v.ty, want) {
+			add(3, func() *Expr { return ident(v.name, v.ty, true, v.obj) })
 		}
 	}
 	tErr := Ty{K: "error"}
@@ -356,6 +431,9 @@ func (g *gen) funcLit(c *ctx, k int) *Expr {
 		}
 		f.Res = append(f.Res, rs)
 	}
+	if named && g.r.Chance(40) {
+		blankResults(g.r, f.Res)
+	}
 	g.p.Funcs = append(g.p.Funcs, f)
 	id := len(g.p.Funcs) - 1
 	cc := &ctx{f: f, encl: c.encl, parent: c, pkg: c.pkg, depth: c.depth + 1,
@@ -398,16 +476,16 @@ func (g *gen) assignTargets(c *ctx) (lhs Lhs, ty Ty, ok bool) {
 	}
 	var ts []tg
 	pk := c.pkg
-	for _, rs := range c.f.Res {
-		if rs.Name != "" && rs.Name != "_" {
-			for i := 0; i < 3; i++ {
-				ts = append(ts, tg{Lhs{K: "ident", Src: rs.Name, Obj: rs.Obj, Ty: rs.Ty}, rs.Ty})
-			}
+	for _, v := range c.visible() {
+		w := 1
+		switch {
+		case v.own:
+			w = 3
+		case v.result: // a named result of an enclosing function, seen from a literal: not assigned
+			w = 0
 		}
-	}
-	for cc := c; cc != nil; cc = cc.parent {
-		for _, l := range append(append([]local{}, cc.locals...), cc.scoped...) {
-			ts = append(ts, tg{Lhs{K: "ident", Src: l.name, Obj: l.obj, Ty: l.ty}, l.ty})
+		for i := 0; i < w; i++ {
+			ts = append(ts, tg{Lhs{K: "ident", Src: v.name, Obj: v.obj, Ty: v.ty}, v.ty})
 		}
 	}
 	ts = append(ts,
@@ -463,6 +541,29 @@ func (g *gen) stmt(c *ctx, nest int) *Stmt {
 		return &Stmt{K: "group", Head: "seq", Blocks: [][]*Stmt{{s, use}}}
 	case k < 75: // return
 		return g.ret(c)
+	case k < 81 && !c.litOnly && len(g.shadowable(c, nest)) > 0:
+		// a named result declared again in an inner scope: `r1 := <expr>` in a block (or in a literal) is a NEW
+		// variable of the same name; what is assigned to it, and a `return r1` in its scope, say nothing about the
+		// result r1, and a later bare return still reports the result's own assignments
+		v := core.Pick(r, g.shadowable(c, nest))
+		rhs := g.expr(c, v.ty, 0) // before the new name exists: `r1 := r1` mentions the outer variable
+		// the new variable has the static type of its initialiser (`r1 := &E{}` is a *E, not an error); an untyped
+		// constant or nil gives no usable type: the idiom `r1 := r1` instead
+		st := rhs.Ty
+		if rhs.K == "call" {
+			st = Ty{}
+			if len(rhs.CRes) == 1 {
+				st = rhs.CRes[0]
+			}
+		}
+		if st.K == "" || st.K == "untyped" || st.K == "nil" || r.Chance(25) {
+			rhs, st = ident(v.name, v.ty, true, v.obj), v.ty
+		}
+		obj := g.newObj()
+		c.scoped = append(c.scoped, local{v.name, st, obj})
+		s := &Stmt{K: "assign", Tok: ":=", Lhs: []Lhs{{K: "ident", Src: v.name, Obj: obj, Ty: st}}, Rhs: []*Expr{rhs}}
+		use := &Stmt{K: "assign", Tok: "=", Lhs: []Lhs{{K: "ident", Src: "_"}}, Rhs: []*Expr{ident(v.name, st, true, obj)}}
+		return &Stmt{K: "group", Head: "seq", Blocks: [][]*Stmt{{s, use}}}
 	case nest < 2:
 		// every statement kind that can hold a return statement (the resolver's traversals must enter all of
 		// them): if / else / else-if chains, expression and type switches, select, for, range, blocks - and any
@@ -492,13 +593,26 @@ func (g *gen) stmt(c *ctx, nest int) *Stmt {
 	return g.ret(c)
 }
 
+// shadowable: the named results that `name := ...` can declare again at this point: the results of the function
+// being generated inside a nested block (at the top level of the body they are in the same scope), the results of
+// the enclosing functions anywhere in a literal; not a name that this scope has already declared again
+func (g *gen) shadowable(c *ctx, nest int) []visVar {
+	var out []visVar
+	for _, v := range c.visible() {
+		if v.result && (nest > 0 || !v.own) {
+			out = append(out, v)
+		}
+	}
+	return out
+}
+
 func (g *gen) ret(c *ctx) *Stmt {
 	r := g.r
 	rs := c.f.Res
 	if len(rs) == 0 {
 		return &Stmt{K: "return", Bare: true}
 	}
-	if rs[0].Name != "" && r.Chance(45) && !c.litOnly {
+	if rs[0].Name != "" && r.Chance(45) && !c.litOnly && !c.resultHidden() {
 		return &Stmt{K: "return", Bare: true}
 	}
 	if len(rs) >= 2 && !c.litOnly && g.budget > 0 && r.Chance(45) { // multi-value forwarding
@@ -517,10 +631,24 @@ func (g *gen) ret(c *ctx) *Stmt {
 // body: n statements, then a final return; declarations of the locals first
 func (g *gen) body(c *ctx, n int) {
 	var ss []*Stmt
+	// the common shape of a function with named results: set (some of) them, then a bare return - every other
+	// function with named results starts with assignments to its non-blank results and mostly ends in a bare return
+	setFirst := len(c.f.Res) > 0 && c.f.Res[0].Name != "" && !c.litOnly && g.r.Chance(50)
+	if setFirst {
+		for _, rs := range c.f.Res {
+			if rs.Name != "_" && g.r.Chance(70) {
+				ss = append(ss, &Stmt{K: "assign", Tok: "=", Lhs: []Lhs{{K: "ident", Src: rs.Name, Obj: rs.Obj, Ty: rs.Ty}}, Rhs: []*Expr{g.expr(c, rs.Ty, 0)}})
+			}
+		}
+	}
 	for i := 0; i < n; i++ {
 		ss = append(ss, g.stmt(c, 0))
 	}
-	ss = append(ss, g.ret(c))
+	if setFirst && g.r.Chance(70) {
+		ss = append(ss, &Stmt{K: "return", Bare: true})
+	} else {
+		ss = append(ss, g.ret(c))
+	}
 	c.f.Body = append(c.decls, ss...)
 }
 
@@ -593,6 +721,9 @@ func generate(r *core.RNG, mode string) *Prog {
 					rs.Obj = g.newObj()
 				}
 				f.Res = append(f.Res, rs)
+			}
+			if named && (r.Chance(35) || (mode == "named" && r.Chance(40))) {
+				blankResults(r, f.Res)
 			}
 			f.ObjN, f.ObjE, f.ObjCb = g.newObj(), g.newObj(), g.newObj()
 			f.ObjT = g.newObj()
